@@ -7,9 +7,11 @@
 //!
 //! Lines (tokens separated by blanks; a unit list is comma separated hex, `-` = empty):
 //!   case <id> <A> <B> <from> <p1> <p2> <byte>   all unary fields of A, all binary fields of (A,B)
-//!   sweep <seed> <count> <maxlen> [skip]        random cases, oracle checked inside, `ok <n> <evals> <known>` or `mismatch <case line> :: <what>`
+//!   sweep <seed> <count> <maxlen> [skip] [full] random cases, oracle checked inside, `ok <n> <evals> <known>` or `mismatch <case line> :: <what>`
 //!   exh <len_a> <len_b> <part> <parts> <seed> <stride> [skip]   exhaustive alphabet strings of the given lengths (A x B), oracle checked inside
+//!        full: binary operations on every constructor pair (default in sweeps: every constructor of A x the REP_B constructors of B)
 //!        skip = 1: `JsStr == str` mismatches of the two known classes of the unpatched tree are counted, not reported
+//!   units1 <lo> <hi> [skip]                     every one-unit string in [lo,hi) in every representation against the oracle (trim predicates, code points, == str ...)
 //!   js <id> <escaped source>                    evaluate a script, print V:<string> or T:<ErrorName>
 //!   ctors <A>                                   list constructor names with repr/static flags
 //! Output of `case`: `<id>\t<field>@<G>=<value>...` with G in {L,U} (unary) or {LL,LU,UL,UU}; a
@@ -314,7 +316,24 @@ fn obs_unary(s: &JsString, a: Args) -> Obs {
     o.push(("std", e_opt_scalars(s.to_std_string().ok().map(|x| scalars(&x)))));
     o.push(("lossy", e_u32s(&scalars(&s.to_std_string_lossy()))));
     o.push(("esc", e_u32s(&scalars(&s.to_std_string_escaped()))));
+    // operations without a Coq model: compared between constructors / representation groups (and `surr`, `mapid` with the oracle)
+    let num = s.to_number();
+    o.push(("num", if num.is_nan() { "nan".into() } else { format!("{:016x}", num.to_bits()) }));
+    o.push(("jnum", { let x = js.to_number(); if x.is_nan() { "nan".into() } else { format!("{:016x}", x.to_bits()) } }));
+    o.push(("surr", e_surr(s.to_std_string_with_surrogates())));
+    o.push(("mapid", e_units(&s.map_valid_segments(|x| x).to_vec())));
     o
+}
+
+fn e_surr(it: impl Iterator<Item = Result<String, u16>>) -> String {
+    let mut out = String::new();
+    for part in it {
+        match part {
+            Ok(st) => { out.push_str("s,"); out.push_str(&e_u32s(&scalars(&st))); out.push(';'); }
+            Err(u) => { out.push_str(&format!("u,{u};")); }
+        }
+    }
+    out
 }
 
 fn obs_binary(s: &JsString, t: &JsString, su: &[u16], tu: &[u16], tstr: Option<&str>, a: Args) -> Obs {
@@ -436,6 +455,21 @@ fn oracle_unary(u: &[u16], a: Args) -> Obs {
     o.push(("std", e_opt_scalars(all)));
     o.push(("lossy", e_u32s(&cps.iter().map(|c| c.as_char().map_or(0xfffd, |c| c as u32)).collect::<Vec<_>>())));
     o.push(("esc", e_u32s(&o_esc(u))));
+    // to_std_string_with_surrogates: maximal runs of scalar values, unpaired surrogates on their own
+    let mut surr = String::new();
+    let mut runv: Vec<u32> = Vec::new();
+    for c in &cps {
+        match c {
+            CodePoint::Unicode(c) => runv.push(*c as u32),
+            CodePoint::UnpairedSurrogate(x) => {
+                if !runv.is_empty() { surr.push_str("s,"); surr.push_str(&e_u32s(&runv)); surr.push(';'); runv.clear(); }
+                surr.push_str(&format!("u,{x};"));
+            }
+        }
+    }
+    if !runv.is_empty() { surr.push_str("s,"); surr.push_str(&e_u32s(&runv)); surr.push(';'); }
+    o.push(("surr", surr));
+    o.push(("mapid", e_units(u)));
     o
 }
 
@@ -478,7 +512,14 @@ fn known_eqs_class(field: &str, group: usize, ua: &[u16], ub: &[u16]) -> bool {
     if group == 0 { ub.iter().any(|&x| x >= 0x80) } else { ua.len() != ub.len() }
 }
 
-fn run_case(id: &str, ua: &[u16], ub: &[u16], a: Args, skip_known: bool) -> CaseOut {
+/// Constructors of B used for the binary operations in the sweeps (`sweep`/`exh`): one per string kind (sequence,
+/// slice, slice of a static, static, builder/concat output, from `str`) and buffer encoding.  The `case` command
+/// (correspondence stream) always runs the full constructor x constructor product; A always uses every constructor.
+const REP_B: [&str; 12] = [
+    "u16", "str", "jsstr_l", "static_l", "static_u", "slice_u", "slice_l", "slice_static_l", "get_u", "concat_best", "b_common", "b_latin1",
+];
+
+fn run_case(id: &str, ua: &[u16], ub: &[u16], a: Args, skip_known: bool, full: bool) -> CaseOut {
     let mut keep = Keep::default();
     let mut line = String::from(id);
     let mut bad: Vec<String> = Vec::new();
@@ -486,7 +527,8 @@ fn run_case(id: &str, ua: &[u16], ub: &[u16], a: Args, skip_known: bool) -> Case
     let mut known = 0u64;
     {
         let ca = build_all(ua, &mut keep);
-        let cb = build_all(ub, &mut keep);
+        let mut cb = build_all(ub, &mut keep);
+        if !full { cb.retain(|b| REP_B.contains(&b.name)); }
         let bstr = String::from_utf16(ub).ok();
         // which buffer kind every constructor chose (s = static)
         line.push_str("\tctors=");
@@ -661,7 +703,7 @@ fn main() {
                 "case" => {
                     let (ua, ub) = (parse_units(p[2]), parse_units(p[3]));
                     let a = Args { from: p[4].parse().unwrap(), p1: p[5].parse().unwrap(), p2: p[6].parse().unwrap(), byte: p[7].parse().unwrap() };
-                    run_case(p[1], &ua, &ub, a, false).line
+                    run_case(p[1], &ua, &ub, a, false, true).line
                 }
                 "ctors" => {
                     let u = parse_units(p[1]);
@@ -678,6 +720,7 @@ fn main() {
                     let count: u64 = p[2].parse().unwrap();
                     let maxlen: usize = p[3].parse().unwrap();
                     let skip = p.get(4).is_some_and(|x| *x == "1");
+                    let full = p.get(5).is_some_and(|x| *x == "full");
                     let mut evals = 0u64;
                     let mut known = 0u64;
                     for _ in 0..count {
@@ -686,7 +729,7 @@ fn main() {
                         let n = ua.len();
                         let from = if r.below(8) == 0 { usize::MAX - r.below(3) as usize } else { r.below(n as u64 + 3) as usize };
                         let a = Args { from, p1: r.below(n as u64 + 2) as usize, p2: r.below(n as u64 + 3) as usize, byte: POOL[r.below(17) as usize] as u8 };
-                        let c = run_case("x", &ua, &ub, a, skip);
+                        let c = run_case("x", &ua, &ub, a, skip, full);
                         evals += c.evals;
                         known += c.known;
                         if !c.bad.is_empty() { return format!("mismatch {} :: {}", case_line(&ua, &ub, a), c.bad[..c.bad.len().min(6)].join(" ")); }
@@ -699,6 +742,7 @@ fn main() {
                     let mut r = Rng(p[5].parse::<u64>().unwrap().wrapping_mul(0x9e3779b97f4a7c15) | 1);
                     let stride: usize = p[6].parse().unwrap();
                     let skip = p.get(7).is_some_and(|x| *x == "1");
+                    let full = p.get(8).is_some_and(|x| *x == "full");
                     let mut known = 0u64;
                     let (na, nb) = (ALPHA.len().pow(la as u32), ALPHA.len().pow(lb as u32));
                     let mut count = 0u64;
@@ -710,13 +754,74 @@ fn main() {
                         let n = ua.len();
                         for (p1, p2) in [(0usize, n), (1, n + 1), (n, 1)] {
                             let a = Args { from: p1, p1, p2, byte: ua.get(p1).map_or(0x61, |x| *x as u8) };
-                            let c = run_case("x", &ua, &ub, a, skip);
+                            let c = run_case("x", &ua, &ub, a, skip, full);
                             evals += c.evals;
                             known += c.known;
                             if !c.bad.is_empty() { return format!("mismatch {} :: {}", case_line(&ua, &ub, a), c.bad[..c.bad.len().min(6)].join(" ")); }
                         }
                         count += 1;
                         k += parts * stride;
+                    }
+                    format!("ok {count} {evals} {known}")
+                }
+                "units1" => {
+                    // every one-unit string x in [lo, hi): all three ways to get it (UTF-16 buffer, Latin-1 buffer, from a Rust str)
+                    // against the plain code-unit oracle; exhaustive over the 2^16 code units when the ranges cover 0..65536
+                    let (lo, hi): (u32, u32) = (p[1].parse().unwrap(), p[2].parse().unwrap());
+                    let skip = p.get(3).is_some_and(|x| *x == "1");
+                    let (mut evals, mut known, mut count) = (0u64, 0u64, 0u64);
+                    for x in lo..hi.min(0x10000) {
+                        let x = x as u16;
+                        let u = [x];
+                        let a = Args { from: 0, p1: 0, p2: 1, byte: x as u8 };
+                        let mut reps: Vec<(&'static str, JsString)> = vec![("u16", JsString::from(&u[..]))];
+                        let lb = [x as u8];
+                        if x < 256 { reps.push(("jsstr_l", JsString::from(JsStr::latin1(&lb)))); }
+                        let ch = char::from_u32(u32::from(x));
+                        let chs = ch.map(|c| c.to_string());
+                        if let Some(cs) = &chs { reps.push(("str", JsString::from(cs.as_str()))); }
+                        let mut bad: Vec<String> = Vec::new();
+                        let mut bad_empty: Vec<String> = Vec::new();     // failures of the comparison with the empty str (replayed with B = empty)
+                        let ws = WS.contains(&x);
+                        let want_cp = o_cp_at(&u, 0).map(|(c, _)| e_cp(c)).unwrap();
+                        for (name, r) in &reps {
+                            let g = if tag(r) == 'L' { 0 } else { 1 };
+                            let mut chk = |what: &str, ok: bool| { evals += 1; if !ok { bad.push(format!("?{}@{}:{}", what, ["L", "U"][g], name)); } };
+                            chk("vec", r.to_vec() == u);
+                            chk("len", r.len() == 1);
+                            chk("trim", r.trim().len() == usize::from(!ws));
+                            chk("trims", r.trim_start().len() == usize::from(!ws));
+                            chk("trime", r.trim_end().len() == usize::from(!ws));
+                            chk("cpa1", e_cp(r.code_point_at(0)) == want_cp);
+                            chk("cps", r.code_points().map(e_cp).collect::<Vec<_>>() == vec![want_cp.clone()]);
+                            chk("std", r.to_std_string().ok() == chs);
+                            chk("has", r.contains(a.byte) == (u16::from(a.byte) == x));
+                            chk("has", r.contains(a.byte.wrapping_add(1)) == (u16::from(a.byte.wrapping_add(1)) == x));
+                            chk("hash", e_hash(r) == o_hash(&u));
+                            chk("get1", r.code_unit_at(0) == Some(x) && r.code_unit_at(1).is_none());
+                            chk("idx", r.index_of(JsStr::utf16(&u), 0) == Some(0) && r.index_of(JsStr::utf16(&u), 1).is_none());
+                            for (oname, o) in &reps {
+                                chk("eq", r == o && r.cmp(o) == Ordering::Equal && sip(r) == sip(o) && r.starts_with(o.as_str()) && o.ends_with(r.as_str()));
+                                let _ = oname;
+                            }
+                            if let Some(cs) = &chs {
+                                evals += 2;
+                                if !(*r == *cs.as_str()) {
+                                    if skip && known_eqs_class("eqs", g, &u, &u) { known += 1; } else { bad.push(format!("?eqs@{}:{}=0~1", ["L", "U"][g], name)); }
+                                }
+                            }
+                            evals += 1;
+                            if *r == *"" {
+                                if skip && known_eqs_class("eqs", g, &u, &[]) { known += 1; } else { bad_empty.push(format!("?eqs@{}:{}=1~0", ["L", "U"][g], name)); }
+                            }
+                        }
+                        count += 1;
+                        if !bad.is_empty() {
+                            return format!("mismatch {} :: {}", case_line(&u, &u, a), bad[..bad.len().min(6)].join(" "));
+                        }
+                        if !bad_empty.is_empty() {
+                            return format!("mismatch {} :: {}", case_line(&u, &[], a), bad_empty[..bad_empty.len().min(6)].join(" "));
+                        }
                     }
                     format!("ok {count} {evals} {known}")
                 }
